@@ -20,9 +20,10 @@ META = {
             "Observation (recorded, not a violation): the loader's arch tag is the constant 'wasm' whatever Config.TargetArch says.",
     "technique": "Lean 4 proof over hand-written model (reference grammar, soundness+completeness of the parser) + differential correspondence + independent oracle",
 }
-REQUIRED = ["eval_bool_semantics", "parse_sound", "parse_complete", "parse_rejects_empty", "parse_rejects_bad_char",
-            "parse_rejects_double_neg", "parse_accepts_balanced", "parse_toString", "parse_toString_double_not_witness",
-            "skip_iff"]
+REQUIRED = ["eval_bool_semantics", "parse_sound", "parse_complete", "parse_rejects_empty", "parseLine_rejects_empty", "parse_rejects_bad_char",
+            "lex_single_amp", "parse_rejects_double_neg", "parse_accepts_balanced", "parse_toString", "parse_toString_any", "parse_toString_line",
+            "parse_toString_double_not_witness", "parseToString_statement_false", "parseToString_statement_repaired",
+            "parseToString_statement_iff", "skip_iff", "firstConstraint_spec", "tagSet_iff"]
 
 ALPHA = ["a", "b", "c", "d"]
 KEY_NOTNOT = "string:not-of-not-printed-unparenthesised"
